@@ -177,14 +177,16 @@ class _Stopped(Exception):
     """the harness had to stop the real execution of a message (nqcase.Runner's guards): the case ends here"""
 
 
-def run_case(case, gen_rng=None, res=None, insn_limit=nqcase.INSN_LIMIT):
+def run_case(case, gen_rng=None, res=None):
     """case = {seed, cap, maxq, gens: [[step, ...], ...]}; a step is [node, kind, ...].  With gen_rng the steps
     are generated and recorded.  -> (violations [(key, what, (generation, step index))], runner)
     Every subroutine here is straight-line (one instruction executed per line).  netqasm's executor has no step
-    bound and runs in this process, so nqcase.Runner stops a message after nqcase.INSN_LIMIT instructions or
-    nqcase.WALL_LIMIT seconds; that is the violation `nonterminating-subroutine` and ends the case."""
+    bound and runs in this process, so nqcase.Runner stops a message after 50 x as many instructions as the
+    subroutine has (at least nqcase.INSN_FLOOR) or nqcase.WALL_LIMIT seconds; that is the violation
+    `nonterminating-subroutine` and ends the case."""
     cap = case["cap"]
-    runner = nqcase.Runner(NAMES, cap, random.Random(case["seed"]), max_regs=case.get("regs"), insn_limit=insn_limit)
+    runner = nqcase.Runner(NAMES, cap, random.Random(case["seed"]), max_regs=case.get("regs"),
+                           insn_limit=lambda prog: nqcase.insn_limit_for(len(prog) if prog is not None else 0))
     mine = {n: None for n in NAMES}       # addresses the node's application holds, as WE know (None: unknown)
     used0 = {n: set() for n in NAMES}     # physical addresses already marked used when the application started
     node_id = runner.node_id
@@ -418,8 +420,7 @@ def run_case(case, gen_rng=None, res=None, insn_limit=nqcase.INSN_LIMIT):
 def shrink(case, key):
     def shows(c):
         try:
-            # straight-line subroutines of a few dozen instructions: a low instruction limit for the candidates
-            v, _ = run_case(c, insn_limit=nqcase.SHRINK_INSN_FLOOR)
+            v, _ = run_case(c)
         except Exception:
             return False
         return any(k == key for k, _w, _i in v)
